@@ -29,7 +29,8 @@ RULE = ("Hypothesis constructs a directory tree of .xbb files: 1..3 subroutines 
         " resolution is the oracle, a decoy file sits where a textual normalisation would look). Directory names may be"
         " '$HOME', '~', '${HOME}', '$PATH', '%TEMP%' (ordinary names to the operating system). Half of the cases load the tree a"
         " first time while one included file is missing, syntactically broken or uses an undefined name, put the file right and"
-        " load again: the second load is the one compared (an earlier failed attempt must not matter).")
+        " load again: the second load is the one compared (an earlier failed attempt must not matter). The main script may call"
+        " programs it knows only through the wrapper's include lines.")
 ASSUMPTIONS = ["reference interpreter and inliner (bbv/model/refsem.py)", "files are ASCII (FileStream default)",
                "mismatched calls (arity, keywords) are covered by C11"]
 BUDGET = {"quick": (1200, 4), "thorough": (8000, 16)}
@@ -211,6 +212,14 @@ def case(draw, tier):
         for _ in range(k):
             case_["calls"].append({"name": s["name"], "loop": draw(st.integers(0, 4)) == 0, "seed": draw(st.integers(0, 10 ** 6)),
                                    "at": draw(st.integers(0, 10))})
+    case_["transitive"] = []
+    if depth == 2 and any(s["name"] == "wrap" for s in chosen) and not same_string:
+        # programs the main script knows only through the wrapper's own include lines are callable from the main script too
+        for s in inner:
+            if s["name"] not in case_["chosen"] and draw(st.booleans()):
+                case_["transitive"].append(s["name"])
+                for _ in range(draw(st.integers(1, 2))):
+                    case_["calls"].append({"name": s["name"], "loop": False, "seed": 0, "at": draw(st.integers(0, 10))})
     case_["cwd"] = draw(st.sampled_from(["main", "main", "sibling", "root", "unrelated"]))
     case_["how"] = draw(st.sampled_from(["abs", "rel"]))
     case_["decoy"] = draw(st.booleans())
@@ -305,7 +314,7 @@ def build(c, root):
         items.insert(min(call["at"], len(items)), st_)
     main = A.Script("main", "1.0", None, None, [inc_string(k, c["main"], t) for k, t in
                                                 [(k, by_name[n]["rel"]) for (k, _), n in zip(_inc_pairs(c), _inc_names(c))]], items)
-    incs = {refs[by_name[n]["rel"]].name: refs[by_name[n]["rel"]] for n in c["chosen"]}
+    incs = {refs[by_name[n]["rel"]].name: refs[by_name[n]["rel"]] for n in list(c["chosen"]) + list(c.get("transitive", []))}
     main_ref = refsem.run(main, incs)
     texts[c["main"]] = render.render(main)
     return texts, main_ref, multi
@@ -428,6 +437,8 @@ def check(c):
             out.classes.append("call-in-loop")
         if primed:
             out.classes.append(primed)
+        if c.get("transitive"):
+            out.classes.append("call-of-transitively-included-program")
         if any(ch in allt for ch in ("$", "~", "%TEMP%")):
             out.classes.append("shell-like-directory-name")
         out.nontrivial = unsorted_sub or any(v >= 2 for v in multi.values()) or c["depth"] >= 2 or c["cwd"] != "main"
